@@ -141,7 +141,7 @@ static T build(Src & s, Srt srt, int depth, bool top, bool intEmphasis) {
             case 3: { args(B, 2); ref("xor"); return {L.mkXor(a[0].tr, a[1].tr), B}; }
             case 4: { args(B, 2); ref("=>"); return {L.mkImpl(a[0].tr, a[1].tr), B}; }
             case 5: { args(B, 3); ref("ite"); return {L.mkIte(a[0].tr, a[1].tr, a[2].tr), B}; }
-            case 6: { Srt es = intEmphasis ? I : (Srt)s.below(NS); args(es, 2); ref("="); return {L.mkEq(a[0].tr, a[1].tr), B}; }
+            case 6: { Srt es = intEmphasis ? I : (Srt)s.below(NS); args(es, 2); ref("="); return {L.mkEq(a[0].tr, a[1].tr), B}; }  // incl. Bool
             case 7: { Srt es = intEmphasis ? I : (Srt)(1 + s.below(NS - 2)); args(es, 2 + s.below(3)); ref("distinct"); vec<PTRef> v; for (auto & x : a) v.push(x.tr);
                       return {L.mkDistinct(std::move(v)), B}; }
             case 8: { args(num, 2); ref("<="); return {L.mkLeq(a[0].tr, a[1].tr), B}; }
@@ -151,7 +151,10 @@ static T build(Src & s, Srt srt, int depth, bool top, bool intEmphasis) {
             case 12: { args(num, 3); ref("<="); vec<PTRef> v; for (auto & x : a) v.push(x.tr); return {L.mkLeq(v), B}; }
             case 13: { a.push_back(arg(s, U, depth - 1, a, false)); a.push_back(arg(s, I, depth - 1, a, false)); ref("p");
                        return {L.mkUninterpFun(env->p, {a[0].tr, a[1].tr}), B}; }
-            default: { args(B, 2); ref("="); return {L.mkEq(a[0].tr, a[1].tr), B}; }
+            default: { // n-ary distinct over non-Bool sorts: the logic keeps a bounded number of distinct classes and expands
+                       // later ones into pairwise disequalities, so many different ones are needed in one logic instance
+                       Srt es = (Srt)(1 + s.below(NS - 2)); args(es, 3 + s.below(3)); ref("distinct"); vec<PTRef> v; for (auto & x : a) v.push(x.tr);
+                       return {L.mkDistinct(std::move(v)), B}; }
         }
     }
     if (srt == I || srt == R) {
